@@ -601,6 +601,15 @@ class ReferenceProperty(Property):
         has_custom = not is_object(obj_type, self.spec_version) \
             or obj_type.startswith("x-")
 
+        if type_ok and auth_type != self.auth_type:
+            # The type got through the inverted whitelist.  If the whitelist
+            # itself would not have let it through, it is here thanks to
+            # allow_custom only.
+            has_custom = has_custom or not (
+                is_stix_type(obj_type, self.spec_version, *self.generics)
+                or obj_type in self.specifics
+            )
+
         if not type_ok:
             types = self.specifics.union(self.generics)
             types = ", ".join(x.name if isinstance(x, STIXTypeClass) else x for x in types)
